@@ -232,6 +232,32 @@ Fixpoint ci_prefix (p s : bytes) : option bytes :=
   | _ :: _, [] => None
   end.
 
+(* value of the hexadecimal constant q * 2^e, None when strtold() reports ERANGE: the long double exponent range is
+   2^-16445 .. 2^16384. The test is exact where it fires (floor(log2 v) lies in [d, d+1] for d below); magnitudes
+   between 2^16383 and 2^16401 and between 2^-16460 and 2^-16382 (overflow boundary, subnormal numbers) are NOT
+   modelled, the generators stay away from them. [len] bounds the number of mantissa digits, so that a huge exponent
+   is decided without computing the power. *)
+Definition hex_value (len : nat) (q : Q) (e : Z) : option Q :=
+  if q_is_zero q then Some q
+  else
+    let lim := (20000 + 4 * Z.of_nat len)%Z in
+    if ((e <? - lim) || (lim <? e))%Z then None
+    else
+      let v := Qmult q (pow2 e) in
+      let d := (Z.log2 (Qnum v) - Z.log2 (Zpos (Qden v)))%Z in
+      if ((16400 <? d) || (d <? -16460))%Z then None else Some v.
+
+Definition parse_hex (s2 : bytes) : option (option Q * bytes) :=
+  match s2 with
+  | z :: x :: r => if (z =? 48) && ((x =? 120) || (x =? 88)) then
+                     match parse_xmantissa r with
+                     | Some (q, r') => let '(e, r'') := parse_exp 112 80 r' in Some (hex_value (length s2) q e, r'')
+                     | None => None
+                     end
+                   else None
+  | _ => None
+  end.
+
 Definition impl_s2n (prec : Z) (s : bytes) : xnum :=
   let s1 := drop_while c_isspace s in
   let '(neg, s2) := eat_sign true s1 in
@@ -243,17 +269,8 @@ Definition impl_s2n (prec : Z) (s : bytes) : xnum :=
   | Some [] => XInf neg
   | Some _ => XNaN
   | None =>
-  let hex := match s2 with
-             | z :: x :: r => if (z =? 48) && ((x =? 120) || (x =? 88)) then
-                                match parse_xmantissa r with
-                                | Some (q, r') => let '(e, r'') := parse_exp 112 80 r' in Some (Qmult q (pow2 e), r'')
-                                | None => None
-                                end
-                              else None
-             | _ => None
-             end in
-  match hex with
-  | Some (q, []) => XFin neg (rnd prec (Qred q))
+  match parse_hex s2 with
+  | Some (Some q, []) => XFin neg (rnd prec (Qred q))
   | Some _ => XNaN
   | None =>
       match parse_mantissa s2 with
